@@ -48,6 +48,14 @@ func (g *vfGen) raceStress() {
 	inputs := [][]byte{[]byte(`{"a":[1,2,3],"b":"some text that goes on","c":{"d":null}}`), []byte("a,b,c,d\n1,2,3,4\n5,6,7,8\n9,10,11,12\n"),
 		[]byte("  [1, 2, 3, 4, 5, 6, 7, 8, 9"), []byte("a,b,c,d\n1,2,3,4\n5,6,7,8\n9,"), []byte("PK\x03\x04"), []byte("{\"a\":[1,2,3]}"), []byte("a,b\n1,2\n3,4\n"), []byte("<html><meta charset=x>"),
 		[]byte("\x89PNG\r\n\x1a\n"), g.textBytes(200), {}, []byte("VERIF-EXT-0 hello"), []byte("VERIF-EXT-3 hello")}
+	// every sample file, shared by all goroutines as one backing array each: a detector that writes into its
+	// input, even if it puts the bytes back, races with the other readers of the same slice
+	for _, c := range vfCorpus() {
+		if len(c) > 8192 {
+			c = c[:8192]
+		}
+		inputs = append(inputs, c)
+	}
 	// sequential oracle: results at every limit, before any extension
 	oracle := make([]map[string]bool, len(inputs))
 	for i, in := range inputs {
